@@ -223,6 +223,37 @@ example :
   · simp [PModel.text, PConstraint.text, PDomain.text, PVarType.text, CName.text, optText, fmtExp, varText, needsEscape, forClause,
       Cmp.text, ObjKind.text, reindent, joinWith, natDigits, digitChar] <;> decide
 
+/-! #### escaped names: `\x_1` is the variable whose NAME is `x_1`
+
+The printer writes a variable whose name has an inner underscore with a backslash (`varText`); the lexer model
+reads `\x_1` as the one word `x_1` (a compound run `x_1` without backslash is never one word), so at token level
+an escaped name is a word like any other and `parse_format_program` covers it: the printable fragment contains the
+names `escapedVar` (base and segments plain runs or integers) as variables, constraint names, declared variables
+and — in braces — indexes. -/
+
+/-- the lexer model on escaped names (`lex` computed by the kernel): one word; the same text without the backslash
+is the compound variable `x_1`; `[` behind an escaped name, a brace index and a leading underscore are declined -/
+theorem escaped_name_lexing :
+    lex "\\x_1 + 2 \\cap_a_12".toList = .ok [.word "x_1", .plus, .int "2", .word "cap_a_12"]
+    ∧ lex "x_1".toList = .ok [.word "x", .us, .int "1"]
+    ∧ lex "\\x_1[0]".toList = .unsupported ∧ lex "\\x_{i}".toList = .unsupported ∧ lex "\\_x_1".toList = .unsupported := by
+  refine ⟨?_, ?_, ?_, ?_, ?_⟩ <;> decide
+
+/-- non-vacuity: `min \x_1 + 2 * \y_a_2  s.t.  \cap_1: \x_1 >= z_{\k_1}  define  \x_1, \y_a_2 as Real` is in the
+printable fragment (so `parse_format_program` gives its round trip), and its text carries the backslashes -/
+example :
+    let m : PModel := PModel.mk .min (.bin .add (.var "x_1") (.bin .mul (.int 2) (.var "y_a_2")))
+      [PConstraint.mk (some (.plain "cap_1")) (.var "x_1") .ge (.cvar "z" [.var "k_1"]) false [] []] []
+      [PDomain.mk [.plain "x_1", .plain "y_a_2"] (.real none none) [] []]
+    printable m = true
+      ∧ m.text = "min \\x_1 + 2 * \\y_a_2\ns.t.\n    \\cap_1: \\x_1 >= z_{\\k_1}\ndefine\n    \\x_1, \\y_a_2 as Real\n" := by
+  refine ⟨?_, ?_⟩
+  · simp [printable, coreProgram, coreExp, coreIdx, coreName, coreFor, coreType, nameVar, plainVar, escapedVar, isEscapedRun, splitRun,
+      isPlainRun, isLetter, isDigit, extraLetters, isKeyword, notForHead, constraintToks, domainToks, cnameToks, fmtToks, fmtToksIdx,
+      varListToks, forToks, i64Max, lowerWord, lowerAscii, printsParen] <;> decide
+  · simp [PModel.text, PConstraint.text, PDomain.text, PVarType.text, CName.text, fmtExp, fmtIndexes, indexText, varText, needsEscape,
+      forClause, Cmp.text, ObjKind.text, reindent, joinWith, binOpText, wrapOperand, printsParen, natDigits, digitChar] <;> decide
+
 /-- the same for the fragment without the lexical conditions on names (`WFpx`) -/
 theorem parse_format_program_wf (m : PModel) (h : WFpx m) : parseProgram (progToks m) = .ok m :=
   parseProgram_fmt m h
@@ -333,6 +364,18 @@ theorem text_index_braces :
     ∧ fmtExp (.cvar "set" [.str "_2"]) = "set__2" := by
   refine ⟨?_, ?_, ?_, ?_, ?_⟩ <;>
     simp [fmtExp, fmtIndexes, indexText, joinWith, numIndexBare, strIndexBare, isDigit, isLetter, extraLetters, natDigits, digitChar] <;> decide
+
+/-- a VARIABLE index with an underscore in its name is written in braces (`x__i` would be read as the name fragment
+`_i`, `y_a_b` as two indexes); a plain variable index stays bare (C11-underscore-variable-index-printed-bare, repaired
+in 7719594) -/
+theorem text_underscore_variable_index :
+    fmtExp (.cvar "x" [.var "_i"]) = "x_{_i}"
+    ∧ fmtExp (.cvar "x" [.var "_i", .var "j"]) = "x_{_i}_j"
+    ∧ fmtExp (.cvar "y" [.var "a_b"]) = "y_{\\a_b}"
+    ∧ fmtExp (.cvar "x" [.var "i"]) = "x_i"
+    ∧ fmtToks (.cvar "x" [.var "_i", .var "j"]) = [.word "x", .us, .lbrace, .word "_i", .rbrace, .us, .word "j"] := by
+  refine ⟨?_, ?_, ?_, ?_, ?_⟩ <;>
+    simp [fmtExp, fmtIndexes, indexText, joinWith, varText, needsEscape, fmtToks, fmtToksIdx] <;> decide
 
 /-- … and these trees are in the printable fragment, so `parse_format_printable_exp` gives their round trip: the
 exceptions the fragment carried for the two defects are gone -/
